@@ -387,6 +387,7 @@ CHECK = {
             "|R20| <= 1-1e-6 (30% within 1e-1..1.6e-3 rad of gimbal lock); quaternions of norm 1e-3..1e3 (15% with a zero component); "
             "points of norm 1e-6..1e6 incl. on the axes; float and double. Non-trivial = distinct case with a finite result.",
     "trusted": ["translator translate/srcfuns.py (clang AST of between0And2Pi, betweenMinusPiAndPi, rotation2DToEulerAngle, rotation3DToEulerAngles at double -> Gallina)", "hand-written model coq/AnglesModel.v tied by differential execution (this run)",
+                "rounded dictionary B64Ops of coq/GridMapFloat.v (Flocq FLT(-1074,53), nearest-even) as the meaning of double arithmetic in the *_binary64 theorems; it is not the dictionary executed by the correspondence run (ocaml/numf.ml is)",
                 "extraction (ExtrOcamlBasic), ocaml/numf.ml (f32 = binary64 libm result rounded to binary32), ocaml/drv_C10.ml",
                 "harness/C10.cpp, python/mpmath oracle in checks/C10.py",
                 "Eigen: AngleAxis->Quaternion, quaternion product, normalized(), toRotationMatrix(), 3x3 products (transcribed, compared numerically)"],
@@ -396,12 +397,30 @@ CHECK = {
                 "rotation->angles->rotation is the identity for |R20|<1; the normalisers are congruent modulo 2*pi and inside their interval "
                 "for |x|<4*pi; the planar pair and the polar/spherical maps are mutual inverses for r>0. The model is executed (binary64 and "
                 "binary32 dictionaries) against the real templates on generated inputs aimed at the wrap points and the gimbal limit, and "
-                "an mpmath oracle written from the property statement judges the implementation's outputs.",
+                "an mpmath oracle written from the property statement judges the implementation's outputs. "
+                "FLOATING POINT (normalisers only, Scalar = double; coq/AnglesFloat.v, Flocq): the same model functions at the rounded "
+                "dictionary B64Ops (one round-to-nearest-even in FLT(-1074,53) per + and -, comparisons exact), also tied to the clang-AST "
+                "translation at B64Ops. Proved: M_PI = 884279719003555*2^-48 = 0x1.921fb54442d18p+1 with 1.2246e-16 < pi - M_PI < 1.2247e-16 "
+                "and M_2PI = 2*M_PI exact; std::fmod is exact in full generality (the remainder x - y*trunc(x/y) of two floating-point "
+                "numbers is a floating-point number, any precision, any y); between0And2Pi on |v| < M_4PI returns a double r in the CLOSED "
+                "interval [0, M_2PI] with |r - (v - k*M_2PI)| <= 2^-51 for an integer k in -2..1 (equality when the fmod is >= 0 or <= -M_PI) "
+                "and within 9.4e-16 of the congruence modulo the true 2*pi; r = M_2PI is attained for every v in (-2^-51, 0) (witness "
+                "-2^-70; replayed on the C++: between0And2Pi(-0x1p-70) == M_2PI), so the half-open [0, 2*pi) of the real theorem closes in "
+                "double (M_2PI < 2*pi as reals); between0And2Pi<float> returns at most 6.2831855f and exactly that, above the real 2*pi by "
+                "1.7e-7, for the same inputs; betweenMinusPiAndPi returns r in [-M_PI, M_PI] with r = v - k*M_2PI EXACTLY (k in -2..2; both "
+                "conditional +-M_2PI are exact by Sterbenz' lemma), within 4.9e-16 of the true congruence.",
         "note": "Trusted: Coq kernel and the standard real-number axioms; hand transcription of the C++/Eigen formulas (checked numerically "
-                "each run); libm and IEEE rounding are observed, not proved; toSpherical<float> does not instantiate in the library "
-                "(its component functions are used for float).",
-        "technique": "Coq proof over R (ring/nra/nsatz, atan2/asin/acos inverse lemmas) + extracted-model correspondence run + mpmath oracle",
+                "each run); libm and IEEE rounding are observed, not proved — except for the two normalisers at double, where rounding is "
+                "modelled by Flocq and what stays trusted is that the hardware/compiler arithmetic IS that rounding (one rounding per C++ "
+                "operation: no FMA contraction, no x87 excess precision), that std::fmod returns the exact remainder (IEEE-754 / C Annex F; "
+                "its representability is proved), and that M_PI is the double nearest to pi (its value is proved to be 0x1.921fb54442d18p+1); "
+                "toSpherical<float> does not instantiate in the library (its component functions are used for float).",
+        "technique": "Coq proof over R (ring/nra/nsatz, atan2/asin/acos inverse lemmas) + Flocq binary64 proof for the normalisers (Sterbenz, format_REM_ZR, "
+                     "Interval for the enclosure of pi) + extracted-model correspondence run + mpmath oracle",
     },
-    "assumptions": ["theorems are over real arithmetic; floating-point behaviour is measured by the correspondence run and the oracle",
+    "assumptions": ["theorems are over real arithmetic, except the *_binary64 theorems about the two normalisers (Flocq rounding, Scalar = double, |v| < M_4PI); "
+                    "elsewhere floating-point behaviour is measured by the correspondence run and the oracle",
+                    "binary64 theorems: hardware arithmetic is round-to-nearest-even with one rounding per C++ operation (no FMA contraction, no x87 excess precision); "
+                    "std::fmod returns the exact remainder",
                     "std::fmod/atan2/asin/acos/sin/cos follow their mathematical definitions up to rounding"],
 }
